@@ -8,6 +8,7 @@ import (
 	"fmt"
 	"reflect"
 	"runtime/metrics"
+	"time"
 	"unsafe"
 
 	"github.com/kercylan98/vivid"
@@ -27,9 +28,40 @@ func allocated() uint64 {
 	return allocSample[0].Value.Uint64()
 }
 
+// sentinel: a valid message nested three levels deep. It is decoded after every enumerated decode: whatever a rejected
+// input did to state shared between decodes (pooled readers handed out twice, sticky errors), the next valid one must not notice.
+var sentinelData, sentinelWant = func() ([]byte, string) {
+	m := &vivid.PipeResult{Id: "outer", Message: &vivid.PipeResult{Id: "inner", Message: &messages.PingMessage{Time: time.Unix(1_700_000_000, 42)}}}
+	w := messages.NewWriter()
+	if err := w.WriteMessage(m, vcodec.UserCodec{}); err != nil {
+		panic(err)
+	}
+	return append([]byte(nil), w.Bytes()...), vcodec.CanonMessage("PipeResult", m)
+}()
+
+var sentinelFailed bool
+
+func checkSentinel(c *venum.Ctx, what string, input []byte) {
+	if sentinelFailed {
+		return
+	}
+	defer func() {
+		if r := recover(); r != nil {
+			sentinelFailed = true
+			c.Fail("decode-after-failed-decode", map[string]any{"entry": what, "bytes": fmt.Sprintf("%x", input)}, "decoding a valid nested message right after %s had been given these bytes panicked: %v", what, r)
+		}
+	}()
+	back, err := messages.NewReader(sentinelData).ReadMessage(vcodec.UserCodec{})
+	if err != nil || vcodec.CanonMessage("PipeResult", back) != sentinelWant {
+		sentinelFailed = true
+		c.Fail("decode-after-failed-decode", map[string]any{"entry": what, "bytes": fmt.Sprintf("%x", input)}, "a valid nested message decoded right after %s had been given these bytes came back as err=%v value=%s", what, err, vcodec.CanonMessage("PipeResult", back))
+	}
+}
+
 // guarded runs f, turning a panic or an allocation out of proportion into a violation.
 func guarded(c *venum.Ctx, what string, input []byte, f func()) {
 	before := allocated()
+	defer checkSentinel(c, what, input)
 	defer func() {
 		if r := recover(); r != nil {
 			c.Fail("decode-no-panic", map[string]any{"entry": what, "bytes": fmt.Sprintf("%x", input)}, "%s panicked on %d input bytes: %v", what, len(input), r)
